@@ -10,9 +10,11 @@ open Gama Gama.Ls
 
 variable {K : Type} [Scalar K]
 
-/-- the numeric world knows the ordering of the input: `perm` inverts `invp` on 1-based indices -/
+/-- the numeric world knows the ordering of the input: `perm` inverts `invp` on the unknowns `1..n`
+    (bounded by `inp.n`, round 4: the driver's `world` satisfies it — `world_describes` —, the former unbounded
+    form it did not) -/
 def World.Describes (W : World K) (inp : EnvInput) : Prop :=
-  ∀ i, 1 ≤ i → W.perm inp.id (inp.invp i) = i
+  ∀ i, 1 ≤ i → i ≤ inp.n → W.perm inp.id (inp.invp i) = i
 
 /-- which element of the symmetric inverse `q0_xx(i,j)` reads outside the envelope (`if (ii < jj) swap`) -/
 def q0pair (inp : EnvInput) (i j : Nat) : Nat × Nat :=
@@ -28,19 +30,19 @@ def directC (inp : EnvInput) (p : Problem K) (m : Option (List Nat)) (reg : List
   | op => direct inp p m reg op
 
 theorem denote_q0spec (W : World K) (inp : EnvInput) (hd : W.Describes inp) (m : Option (List Nat))
-    {i j : Nat} (hi : 1 ≤ i) (hj : 1 ≤ j) :
+    {i j : Nat} (hi : 1 ≤ i ∧ i ≤ inp.n) (hj : 1 ≤ j ∧ j ≤ inp.n) :
     denote W inp.id m (q0spec inp i j)
       = ofE .num (envSolve { W.prob inp.id with reg := regOf m } >>= fun r => r.q0xx (q0pair inp i j).1 (q0pair inp i j).2) := by
   unfold q0spec q0pair
   by_cases he : inp.inEnv (inp.invp i) (inp.invp j) = true
-  · simp [he, denote, hd i hi, hd j hj]
+  · simp [he, denote, hd i hi.1 hi.2, hd j hj.1 hj.2]
   · by_cases hlt : inp.invp i < inp.invp j
-    · simp [he, hlt, denote, hd i hi, hd j hj]
-    · simp [he, hlt, denote, hd i hi, hd j hj]
+    · simp [he, hlt, denote, hd i hi.1 hi.2, hd j hj.1 hj.2]
+    · simp [he, hlt, denote, hd i hi.1 hi.2, hd j hj.1 hj.2]
 
 /-- the history-free specification denotes what a fresh object computes -/
 theorem denote_spec (W : World K) (inp : EnvInput) (hd : W.Describes inp) (m : Option (List Nat))
-    (reg : List Nat) (op : Op) (hv : op.Valid) :
+    (reg : List Nat) (op : Op) (hv : op.Valid inp.n) :
     denote W inp.id m (spec inp reg op) = directC inp (W.prob inp.id) m reg op := by
   cases op with
   | unknowns =>
@@ -73,7 +75,7 @@ theorem denote_spec (W : World K) (inp : EnvInput) (hd : W.Describes inp) (m : O
 
 /-- **answer_denotes** (one step from a state satisfying the invariant) -/
 theorem hstep_denotes (W : World K) {h : HState} (hi : HInv h) (hd : W.Describes h.inp)
-    (m : Option (List Nat)) (op : Op) (hv : op.Valid) :
+    (m : Option (List Nat)) (op : Op) (hv : op.Valid h.inp.n) :
     denote W h.inp.id m (hstep h (.q op)).2
       = directC h.inp (W.prob h.inp.id) m (eff h.inp h.s.minx) op := by
   rw [hstep_spec hi op hv]
